@@ -83,26 +83,11 @@ theorem encodeData_noNs (env : NsEnv) (v : Val) (M : NsMap) (h : valNoNs v = tru
         simp only [Except.ok.injEq, Prod.mk.injEq] at he
         rw [← he.2]; exact serializeAtoms_noNs env (a :: r) M h ss M1 h1
 
-theorem encodeData_text_mayBeText (env : NsEnv) (v : Val) (M : NsMap) (x : Str) (M' : NsMap)
-    (he : encodeData env v M = .ok (some x, M')) (hx : x.isEmpty = false) : mayBeText v = true := by
-  cases v with
-  | none => simp [encodeData] at he
-  | atom a =>
-    cases a with
-    | str s => simp [encodeData] at he; simp [mayBeText, he.1, hx]
-    | int i => rfl
-    | bool b => rfl
-    | qname t => rfl
-  | list xs =>
-    cases xs with
-    | nil => simp [encodeData] at he
-    | cons a r => rfl
-
 /-- `calls` is defined on every forest satisfying the input-level conditions -/
 theorem calls_defined (env : NsEnv) (henv : EnvOK env) (d : Option Str) (c : Content) :
-    (∀ M it, MapOK env d M → contentOK env d c = true → shapeOK false it c = true →
+    (∀ M it, MapOK env d M → contentOK env d c = true → shapeOK false c = true →
       ∃ cs, calls env (.content M it) c = some cs)
-    ∧ (∀ base tag A M2, MapOK env d M2 → AttrsOK d A → contentOK env d c = true → shapeOK true false c = true →
+    ∧ (∀ base tag A M2, MapOK env d M2 → AttrsOK d A → contentOK env d c = true → shapeOK true c = true →
       ∃ cs, calls env (.body base tag A M2) c = some cs) := by
   induction c with
   | nil => exact ⟨fun _ _ _ _ _ => ⟨[], rfl⟩, fun _ _ _ _ _ _ _ _ => ⟨_, rfl⟩⟩
@@ -110,8 +95,8 @@ theorem calls_defined (env : NsEnv) (henv : EnvOK env) (d : Option Str) (c : Con
     refine ⟨?_, ?_⟩
     · intro M it hM hok hsh
       simp only [contentOK, Bool.and_eq_true] at hok
-      simp only [shapeOK, Bool.false_or, Bool.and_eq_true, Bool.not_eq_true', Bool.and_eq_false_iff] at hsh
-      obtain ⟨⟨hnn, htl⟩, hshk⟩ := hsh
+      simp only [shapeOK, Bool.false_or, Bool.and_eq_true] at hsh
+      obtain ⟨hnn, hshk⟩ := hsh
       obtain ⟨val, M', he, _, _, _⟩ := encodeData_ok env henv d v M hM (dataValOK_valOK v hok.1)
       have hMM := encodeData_noNs env v M hnn val M' he
       subst hMM
@@ -124,13 +109,7 @@ theorem calls_defined (env : NsEnv) (henv : EnvOK env) (d : Option Str) (c : Con
         by_cases hx : x.isEmpty = true
         · simp only [hx, if_true]; exact ⟨cs, hcs⟩
         · have hxe : x.isEmpty = false := by simpa using hx
-          simp only [hxe, Bool.false_eq_true, if_false]
-          have hit : it = false := by
-            rcases htl with h | h
-            · exact h
-            · rw [encodeData_text_mayBeText env v M' x M' he hxe] at h; cases h
-          subst hit
-          simp only [Bool.false_eq_true, if_false, hcs]
+          simp only [hxe, Bool.false_eq_true, if_false, hcs]
           exact ⟨_, rfl⟩
     · intro base tag A M2 hM hA hok hsh
       simp only [contentOK, Bool.and_eq_true] at hok
@@ -152,13 +131,13 @@ theorem calls_defined (env : NsEnv) (henv : EnvOK env) (d : Option Str) (c : Con
         simp only [attrNameOK, Bool.and_eq_true] at this
         cases h1 : e.1.1 with
         | none => rfl
-        | some u => rw [h1] at this; simp only [Bool.and_eq_true] at this; exact this.2.1
+        | some u => rw [h1] at this; exact this.2
       obtain ⟨cs, hcs⟩ := ih.1 _ true hflush hok.2 hsh
       rw [hcs]
       exact ⟨_, rfl⟩
   | child q attrs kids rest ihk ihr =>
     have hcontent : ∀ M it, MapOK env d M → contentOK env d (.child q attrs kids rest) = true →
-        shapeOK false it (.child q attrs kids rest) = true →
+        shapeOK false (.child q attrs kids rest) = true →
         ∃ cs, calls env (.content M it) (.child q attrs kids rest) = some cs := by
       intro M it hM hok hsh
       simp only [contentOK, Bool.and_eq_true] at hok
@@ -190,8 +169,8 @@ theorem calls_defined (env : NsEnv) (henv : EnvOK env) (d : Option Str) (c : Con
       simp only [attrNameOK, Bool.and_eq_true] at this
       cases h1 : e.1.1 with
       | none => rfl
-      | some u => rw [h1] at this; simp only [Bool.and_eq_true] at this; exact this.2.1
-    have hsh' : shapeOK false false (.child q attrs kids rest) = true := by
+      | some u => rw [h1] at this; exact this.2
+    have hsh' : shapeOK false (.child q attrs kids rest) = true := by
       simpa [shapeOK] using hsh
     obtain ⟨inner, hinner⟩ := hcontent _ false hflush hok hsh'
     simp only [calls] at hinner ⊢
@@ -210,7 +189,7 @@ theorem calls_defined (env : NsEnv) (henv : EnvOK env) (d : Option Str) (c : Con
 theorem docCalls_defined (env : NsEnv) (henv : EnvOK env) (cfg : Cfg) (hcfg : Proofs.Assembly.plainCfg cfg = true)
     (m : List (Pfx × Str)) (hm : userMapOK env m = true) (q : Str) (attrs : List (Str × Val)) (kids : Content)
     (hok : contentOK env (userDefault m) (.child q attrs kids .nil) = true)
-    (hsh : shapeOK true false kids = true) :
+    (hsh : shapeOK true kids = true) :
     ∃ cs, docCalls env cfg m q attrs kids = some cs := by
   have hM0 := userMapOK_MapOK env m hm
   simp only [contentOK, Bool.and_eq_true] at hok
